@@ -500,11 +500,58 @@ def graph_edges_rule(A: Analysis, col: Collector, rule: str):
     # Submitter.get_runnable_tasks: stops at nodes whose predecessors have not started
     gr = A.func(f"{SUBMITTER}.get_runnable_tasks")
     col.scope(gr.qualname)
+    scan_order_rule(A, col, rule, gr)
     src = " ".join(norm(n) for n in walk_own(gr.node) if isinstance(n, ast.For))
     if "sorted_nodes" in src:
         col.ok(rule, "Submitter.get_runnable_tasks scans graph.sorted_nodes (topological order)", A.loc(gr.node))
     else:
         col.fail(rule, gr.qualname, "scan-not-topological", "Submitter.get_runnable_tasks does not scan graph.sorted_nodes", A.loc(gr.node))
+
+
+def scan_order_rule(A: Analysis, col: Collector, rule: str, gr: FuncInfo):
+    """The sorted scan releases a node's successors only in a later round: within the
+    loop body (1) the scan stops (`break`) at a node that has a predecessor recorded as
+    not started, (2) a node that is not started yet is recorded *before* (3) its
+    NodeExecution.get_runnable_tasks() is called -- that call starts the node, so a test
+    of `started` made after it can never record the node, and successors whose
+    predecessors merely have a (possibly stale, e.g. under rerun) result in the cache are
+    released in the same round as the predecessor."""
+    cfg = A.cfg(gr)
+    loops = [n for n in walk_own(gr.node) if isinstance(n, ast.For) and isinstance(n.target, ast.Name) and isinstance(n.iter, ast.Attribute) and n.iter.attr == "sorted_nodes"]
+    A.anchor("scan over graph.sorted_nodes in Submitter.get_runnable_tasks", loops)
+    lp = loops[0]
+    v = lp.target.id
+    collect = [n for n in cfg.nodes if n.stmt is not None and is_within(n.stmt, lp) and any(isinstance(c.func, ast.Attribute) and c.func.attr == "get_runnable_tasks" and norm(c.func.value) == v for c in _calls(n))]
+    started_tests = [n for n in cfg.nodes if n.kind == "test" and is_within(n.stmt, lp) and norm(n.stmt.test) == f"not {v}.started"]
+    if not collect:
+        raise AnalysisError("Submitter.get_runnable_tasks: the call <node>.get_runnable_tasks(graph) inside the scan was not found")
+    rec_sets = set()
+    for t in started_tests:
+        for k in ast.walk(t.stmt):
+            if isinstance(k, ast.Call) and isinstance(k.func, ast.Attribute) and k.func.attr == "add" and k.args and norm(k.args[0]) == v and isinstance(k.func.value, ast.Name):
+                rec_sets.add(k.func.value.id)
+    if not started_tests or not rec_sets:
+        col.fail(rule, gr.qualname, "scan-does-not-record-unstarted-nodes", "the sorted scan no longer records nodes that have not been started: successors are released in the same round as their predecessors", A.loc(lp))
+        return
+    ids = {t.id for t in started_tests}
+    for cnode in collect:
+        # the test must come first in every iteration: it dominates the collecting call and the
+        # collecting call does not reach it again within the same iteration (other than via the loop head)
+        if cfg.dominated_by(cnode, lambda m: m.id in ids):
+            col.ok(rule, f"scan: `if not {v}.started: <record>` is evaluated before `{v}.get_runnable_tasks(graph)` (which starts the node) in every iteration", A.loc(cnode.stmt))
+        else:
+            col.fail(rule, gr.qualname, "node-started-before-recorded-as-unstarted", f"`{v}.get_runnable_tasks(graph)` (which starts the node) runs before the `not {v}.started` test that records it: a node started in this scan is never recorded, the scan continues to its successors in the same round, and a successor whose predecessor has a (stale) result in the cache -- e.g. under rerun -- starts before the predecessor has run", A.loc(cnode.stmt))
+    # the break on a predecessor that is not started precedes the collection too
+    breaks = [n for n in cfg.nodes if n.kind == "test" and is_within(n.stmt, lp) and any(isinstance(b, ast.Break) for b in n.stmt.body) and any(rs in norm(n.stmt.test) for rs in rec_sets)]
+    if breaks and all(cfg.dominated_by(cn, lambda m: m.id in {b.id for b in breaks}) for cn in collect):
+        # and what is intersected is the complete predecessor list of the node
+        pred_src = [n for n in walk_own(lp) if isinstance(n, ast.Assign) and isinstance(n.value, ast.Call) and dotted(n.value.func) == "set" and n.value.args and norm(n.value.args[0]) == f"{norm(lp.iter.value)}.predecessors[{v}.name]"]
+        if pred_src:
+            col.ok(rule, "scan: stops at the first node one of whose (complete) predecessors was recorded as not started", A.loc(breaks[0].stmt))
+        else:
+            col.fail(rule, gr.qualname, "scan-break-on-partial-predecessors", "the scan's stop test does not use the complete predecessor list graph.predecessors[node.name]", A.loc(breaks[0].stmt))
+    else:
+        col.fail(rule, gr.qualname, "scan-does-not-stop-at-unstarted-predecessor", "the scan no longer stops at a node whose predecessor has not been started before collecting its jobs", A.loc(lp))
 
 
 def exactly_once_rule(A: Analysis, col: Collector, rule: str):
